@@ -2,7 +2,7 @@
    independent specification (a namespace-aware reader of the emitted events).
    Definitions only (no proofs) so that extraction works when a proof breaks.
 
-   Modelled C++ (xalanc/XSLT): ResultNamespacesStack (addDeclaration/pushContext/popContext,
+   Modelled C++ (xalanc/XSLT, DOMSupport): XalanNamespacesStack (addDeclaration/pushContext/popContext,
    getNamespaceForPrefix, getPrefixForNamespace), XSLTEngineImpl::addResultAttribute /
    startElement / flushPending / endElement / getUniqueNamespaceValue / isPendingResultPrefix,
    AttributeListImpl::addAttribute (replace by qualified name), ElemAttribute::startElement +
@@ -88,7 +88,7 @@ Inductive event : Type :=
 | EText.
 
 (* ---------------------------------------------------------------------------------------- *)
-(* ResultNamespacesStack: one context per open result element, innermost first; in a context the
+(* XalanNamespacesStack: one context per open result element, innermost first; in a context the
    newest declaration first (the C++ vectors are searched from the back). Contexts are created
    lazily in C++; a context that was never created is an empty list here. *)
 
@@ -121,18 +121,17 @@ Fixpoint stk_prefix_for (u : uri) (s : list ctx) : option pfx :=
 Definition all_empty (s : list ctx) : bool :=
   forallb (fun c => match c with [] => true | _ => false end) s.
 
-(* ResultNamespacesStack::getNamespaceForPrefix: nothing at all when no context exists
-   (m_stackPosition == m_stackBegin); otherwise XalanQName::getNamespaceForPrefix answers for
-   "xml" and "xmlns" before looking at the first vector *)
+(* XalanNamespacesStack::getNamespaceForPrefix (the class XSLTEngineImpl::m_resultNamespacesStack
+   really has; XSLT/ResultNamespacesStack.cpp is an unused twin): "xml" and "xmlns" are answered
+   first; otherwise nothing at all when no context exists (m_stackPosition == m_stackBegin) *)
 Definition ns_for_prefix (s : list ctx) (p : pfx) : option uri :=
-  if all_empty s then None
-  else match p with
-       | Some AXml => Some uXML
-       | Some AXmlns => Some uXMLNS
-       | _ => stk_lookup p s
-       end.
+  match p with
+  | Some AXml => Some uXML
+  | Some AXmlns => Some uXMLNS
+  | _ => if all_empty s then None else stk_lookup p s
+  end.
 
-(* ResultNamespacesStack::getPrefixForNamespace: the first declaration with that URI, innermost
+(* XalanNamespacesStack::getPrefixForNamespace: the first declaration with that URI, innermost
    context first — it does not check that the prefix is still bound to that URI *)
 Definition prefix_for_ns (s : list ctx) (u : uri) : option pfx :=
   if all_empty s then None else stk_prefix_for u s.
